@@ -1134,15 +1134,15 @@ class Duration(AnyAtomicType):
         m1, s1 = self.months, int(self.seconds)
         m2, s2 = other.months, int(other.seconds)
         ms1, ms2 = int((self.seconds - s1) * 1000000), int((other.seconds - s2) * 1000000)
+        def us(year: int, month: int, months: int, seconds: int, microseconds: int) -> int:
+            # the length in microseconds from a reference date (no limit, unlike timedelta)
+            return (months2days(year, month, months) * 86400 + seconds) * 1000000 + microseconds
+
         return all([
-            op(datetime.timedelta(months2days(1696, 9, m1), s1, ms1),
-               datetime.timedelta(months2days(1696, 9, m2), s2, ms2)),
-            op(datetime.timedelta(months2days(1697, 2, m1), s1, ms1),
-               datetime.timedelta(months2days(1697, 2, m2), s2, ms2)),
-            op(datetime.timedelta(months2days(1903, 3, m1), s1, ms1),
-               datetime.timedelta(months2days(1903, 3, m2), s2, ms2)),
-            op(datetime.timedelta(months2days(1903, 7, m1), s1, ms1),
-               datetime.timedelta(months2days(1903, 7, m2), s2, ms2)),
+            op(us(1696, 9, m1, s1, ms1), us(1696, 9, m2, s2, ms2)),
+            op(us(1697, 2, m1, s1, ms1), us(1697, 2, m2, s2, ms2)),
+            op(us(1903, 3, m1, s1, ms1), us(1903, 3, m2, s2, ms2)),
+            op(us(1903, 7, m1, s1, ms1), us(1903, 7, m2, s2, ms2)),
         ])
 
     def __hash__(self) -> int:
